@@ -929,9 +929,11 @@ def SIR_individual_based_pure_IC(G, tau, gamma, initial_infecteds,
         X0 = np.array([0 if u in non_susceptibles  else 1
                             for u in nodelist])
     
-    return SIR_individual_based(G, tau, gamma, nodelist, X0, Y0, tmin, 
-                                tmax, tcount, transmission_weight, 
-                                recovery_weight, return_full_data)
+    return SIR_individual_based(G, tau, gamma, nodelist=nodelist, X0=X0, Y0=Y0, 
+                                tmin=tmin, tmax=tmax, tcount=tcount, 
+                                transmission_weight=transmission_weight, 
+                                recovery_weight=recovery_weight, 
+                                return_full_data=return_full_data)
 
 ########   PAIR BASED
 
